@@ -10,6 +10,10 @@ EXC_KINDS = ["oserror_arg", "epipe_arg", "ebadf_arg", "timeouterr_arg", "eof_arg
              "genexit_arg"]
 
 
+HOSTILE_KINDS = ["raise_badstr", "raise_unprintable", "raise_badrepr_arg", "raise_badrepr_kwarg",
+                 "raise_badrepr_fn", "ok_badrepr_arg"]
+
+
 def plan(tier):
     PT = dict(kinds=("P", "T"))
     pl = []
@@ -18,6 +22,10 @@ def plan(tier):
         pl.append((PG.failing_first_ok(k, 2), 1, PT))
     for k in EXC_KINDS:
         pl.append((PG.failing_first_ok(k, 1), 0 if tier == "quick" else 1, PT))
+    # exceptions, callables and arguments that cannot be printed (__str__ / __repr__ raise)
+    for k in HOSTILE_KINDS:
+        pl.append((PG.failing_first_ok(k, 1), 0, PT))
+    pl.append((PG.mixed_failures(["raise_badstr", "ok", "raise_badrepr_arg", "ok"], 2), 0, PT))
     for exc in ("KeyboardInterrupt", "SystemExit", "GeneratorExit", "MemoryError", "StopIteration"):
         pl.append((PG.callback_raises_exc(exc, 1, "ok"), 0 if exc in ("MemoryError", "StopIteration") else 1, PT))
         pl.append((PG.callback_raises_exc(exc, 1, "bad_arg"), 0, PT))
